@@ -389,17 +389,21 @@ Section OneHotSeq.
 
   Theorem onehot_generation_total ls evs :
     Forall (fun l => 0 <= l < n) ls ->
-    exists out, generate (ohs_decode E dec) ls evs = Some out /\
-                length out = (length evs + length ls)%nat /\
-                steps_by_generation (ohs_decode E dec) steps ls =
-                  match generate (ohs_decode E dec) ls [] with
-                  | Some g => Some (zsum (map steps g)) | None => None end.
+    (exists out, generate (ohs_decode E dec) ls evs = Some out /\
+                 length out = (length evs + length ls)%nat) /\
+    (exists g, generate (ohs_decode E dec) ls [] = Some g /\ length g = length ls /\
+               steps_by_generation (ohs_decode E dec) steps ls = Some (zsum (map steps g))).
   Proof.
     intros Hg.
-    destruct (generate (ohs_decode E dec) ls evs) as [out|] eqn:Hgen.
-    - exists out. split; [reflexivity|]. split; [now apply generate_extends in Hgen|].
-      unfold steps_by_generation. now destruct (generate _ ls []).
-    - exfalso. revert Hgen. apply (generate_total _ (fun l => 0 <= l < n)); auto.
+    assert (Ht : forall evs0, generate (ohs_decode E dec) ls evs0 <> None).
+    { intros evs0. apply (generate_total _ (fun l => 0 <= l < n)); auto.
+      intros l0 evs1 Hl0. now apply dec_total. }
+    split.
+    - destruct (generate (ohs_decode E dec) ls evs) as [out|] eqn:Hgen; [|now apply Ht in Hgen].
+      exists out. split; [reflexivity|]. now apply generate_extends in Hgen.
+    - destruct (generate (ohs_decode E dec) ls []) as [g|] eqn:Hgen; [|now apply Ht in Hgen].
+      exists g. split; [reflexivity|]. split; [now apply generate_extends in Hgen|].
+      unfold steps_by_generation. now rewrite Hgen.
   Qed.
 End OneHotSeq.
 
